@@ -138,7 +138,7 @@ def shard(desc):
                 res.count('reset_ops')
             else:
                 a, b = rng.sample(range(3), 2)
-                c.op('K', a, b)
+                c.op(rng.choice(['K', 'KF']), a, b)      # clone() or clone_from()
                 model[a] = model[b].clone()
             obs = [c.op('O', r_) for r_ in range(3)]
             steps.append((obs, exp_panic, [m.clone() for m in model]))
@@ -195,9 +195,9 @@ def run(tier, seed):
     t0 = time.time()
     total = Result()
     if tier == 'quick':
-        nhist, maxops, variants, mult = 4000, 12, [('release', 1.0), ('dev', 0.4), ('nightly', 0.4), ('plain', 0.3)], 1
+        nhist, maxops, variants, mult = 4000, 12, [('release', 1.0), ('dev', 0.4), ('nightly', 0.4), ('plain', 0.3), ('bare', 0.2)], 1
     else:
-        nhist, maxops, variants, mult = 200000, 25, [('release', 1.0), ('dev', 0.3), ('nightly', 0.3), ('plain', 0.2)], 8
+        nhist, maxops, variants, mult = 200000, 25, [('release', 1.0), ('dev', 0.3), ('nightly', 0.3), ('plain', 0.2), ('bare', 0.1)], 8
     try:
         for variant, frac in variants:
             binary = build(variant)
@@ -249,7 +249,7 @@ def rejudge(case, recs, res, variant, v):
             model[t[1]].mul(int(t[2]))
         elif code == 'HZ':
             model[t[1]].reset()
-        elif code == 'K':
+        elif code in ('K', 'KF'):
             model[t[1]] = model[t[2]].clone()
         elif code == 'O':
             oo = [r for r in by_op.get(i, []) if r.kind == 'o']
